@@ -311,6 +311,13 @@ Definition dispatch (req : sx) : sx :=
   else if String.eqb op "model" then model_report (g_sections a1)
   else if String.eqb op "model_of_world" then model_report (w_sections (g_world a1))
   else if String.eqb op "sig8" then sig8_report (g_world a1) (gI a2)
+  else if String.eqb op "spec_at" then
+    (* the expected observations of the first .debug_info unit of the world when it is placed at section offset
+       a2 (any offset, e.g. beyond 2^32: C04_section_unit_exact is parametric in what precedes the unit) *)
+    match w_info (g_world a1) with
+    | u :: _ => let p := mkpunit u (gI a2) true in spec_unit (g_world a1) [p] p
+    | [] => sx_none
+    end
   else if String.eqb op "std_class" then
     match std_form_class (g_cfg a1) (gI a2) with
     | Some k => SL [SS "some"; SI (match k with
